@@ -16,10 +16,13 @@ TYPE_NAME = {"s": "xs:string", "t": "xs:token", "i": "xs:integer", "d": "xs:deci
              # further members of the three families, at various derivation depths (built-in and user restrictions)
              "N": "xs:normalizedString", "C": "xs:NCName", "T": "myToken",
              "E": "myDecimal", "I": "myInteger", "l": "xs:long", "n": "xs:int", "J": "myInt", "h": "xs:short", "b": "xs:byte",
-             "u": "xs:nonNegativeInteger", "A": "myDate"}
-PARENT = {"s": None, "N": "s", "t": "N", "C": "t", "T": "t",
-          "d": None, "E": "d", "i": "d", "I": "i", "l": "i", "n": "l", "J": "n", "h": "n", "b": "h", "u": "i",
-          "D": None, "A": "D", "q": None}
+             "u": "xs:nonNegativeInteger", "A": "myDate",
+             # declared types whose instances usually carry an xsi:type of a type with another value space
+             "y": "xs:anySimpleType"}
+ATTR_NS = "urn:attr"
+PARENT = {"y": None, "s": "y", "N": "s", "t": "N", "C": "t", "T": "t",
+          "d": "y", "E": "d", "i": "d", "I": "i", "l": "i", "n": "l", "J": "n", "h": "n", "b": "h", "u": "i",
+          "D": "y", "A": "D", "q": None}
 USER_TYPES = {"myToken": "xs:token", "myDecimal": "xs:decimal", "myInteger": "xs:integer", "myInt": "xs:int", "myDate": "xs:date"}
 FAMILIES = {"dec": "dEiIlnJhbu", "str": "sNtCT", "date": "DA"}
 
@@ -60,6 +63,7 @@ POOL["N"] = POOL["s"]
 POOL["T"] = POOL["t"]
 POOL["C"] = [["a", " a", "a ", "  a  "], ["b", " b"], ["A"], ["c"], ["d"], ["e", " e "]]
 POOL["A"] = POOL["D"]
+POOL["y"] = [["1"], ["+1"], ["01"], ["a"], [" a"], ["2001-01-01Z"], ["2001-01-01+00:00"], ["1.0"]]
 
 
 def hexs(s):
@@ -71,12 +75,38 @@ def esc(s):
 
 
 # ---------------------------------------------------------------------------------------------------------------
+def attr_qname(i):
+    """attribute index -> name in instance documents and XPaths: t0..t2 unqualified, 3.. qualified (namespace urn:attr)"""
+    return "t%d" % i if i < 3 else "t:g%d" % (i - 3)
+
+
+def render_import_xsd(case):
+    """the schema of the namespace urn:attr: global attribute declarations g0.. (None when the case has none)"""
+    if len(case["atypes"]) <= 3:
+        return None
+    o = ['<?xml version="1.0"?>\n<xs:schema xmlns:xs="%s" targetNamespace="%s" %s>\n' % (XS, ATTR_NS, NSDECL)]
+    for un, ub in sorted(USER_TYPES.items()):
+        o.append('<xs:simpleType name="%s"><xs:restriction base="%s"/></xs:simpleType>\n' % ("a" + un, ub))
+    for i, t in enumerate(case["atypes"][3:]):
+        tn = TYPE_NAME[t]
+        if not tn.startswith("xs:"):
+            tn = "ta:a" + tn
+        o.append('<xs:attribute name="g%d" type="%s"/>\n' % (i, tn))
+    o.append('</xs:schema>\n')
+    return "".join(o).replace("<xs:schema ", '<xs:schema xmlns:ta="%s" ' % ATTR_NS, 1)
+
+
 def render_xsd(case):
     nl, na, nc = len(case["ltypes"]), len(case["atypes"]), case["nc"]
-    o = ['<?xml version="1.0"?>\n<xs:schema xmlns:xs="%s" %s>\n' % (XS, NSDECL)]
+    qual = na > 3
+    o = ['<?xml version="1.0"?>\n<xs:schema xmlns:xs="%s" %s%s>\n'
+         % (XS, NSDECL, ' xmlns:t="%s"' % ATTR_NS if qual else "")]
+    if qual:
+        o.append('<xs:import namespace="%s" schemaLocation="@@A@@"/>\n' % ATTR_NS)
     for un, ub in sorted(USER_TYPES.items()):
         o.append('<xs:simpleType name="%s"><xs:restriction base="%s"/></xs:simpleType>\n' % (un, ub))
-    attrs = "".join('<xs:attribute name="t%d" type="%s"/>' % (i, TYPE_NAME[t]) for i, t in enumerate(case["atypes"]))
+    attrs = "".join('<xs:attribute name="t%d" type="%s"/>' % (i, TYPE_NAME[t]) for i, t in enumerate(case["atypes"][:3]))
+    attrs += "".join('<xs:attribute ref="t:g%d"/>' % i for i in range(na - 3))
     o.append('<xs:complexType name="CT"><xs:choice minOccurs="0" maxOccurs="unbounded">')
     for i in range(nc):
         o.append('<xs:element ref="c%d"/>' % i)
@@ -117,9 +147,10 @@ def render_xml(case):
         if len(n) > 4 and n[4]:
             o.append(' xsi:type="%s"' % TYPE_NAME[n[4]])
         if root:
-            o.append(' xmlns:xsi="http://www.w3.org/2001/XMLSchema-instance" xmlns:xs="%s" %s @@L@@' % (XS, NSDECL))
+            o.append(' xmlns:xsi="http://www.w3.org/2001/XMLSchema-instance" xmlns:xs="%s" %s%s @@L@@'
+                     % (XS, NSDECL, ' xmlns:t="%s"' % ATTR_NS if len(case["atypes"]) > 3 else ""))
         for a in sorted(attrs):
-            o.append(' t%d="%s"' % (a, esc(attrs[a])))
+            o.append(' %s="%s"' % (attr_qname(a), esc(attrs[a])))
         if kind == "l":
             if body is None:
                 o.append(' xsi:nil="true"/>')
@@ -166,8 +197,12 @@ def render_abstract(case):
 
 
 def request(case, scheme="always", scanner="ig", load="pool"):
-    return "ic %s %s %s %s %s %s" % (scheme, scanner, load, hexs(render_xsd(case)), hexs(render_xml(case)),
-                                     render_abstract(case))
+    """scanner may carry the flag "+p" (a no-op PSVIHandler is installed)"""
+    xsd = hexs(render_xsd(case))
+    imp = render_import_xsd(case)
+    if imp is not None:
+        xsd += ":" + hexs(imp)
+    return "ic %s %s %s %s %s %s" % (scheme, scanner, load, xsd, hexs(render_xml(case)), render_abstract(case))
 
 
 # ---------------------------------------------------------------------------------------------------------------
@@ -192,7 +227,7 @@ def gen_path(rng, case, field, allow_desc=True, maxsteps=3):
             nsteps = rng.choice([0, 0, 0, 1])
             for _ in range(nsteps):
                 steps.append(rng.choice(["c%d" % rng.randrange(nc), "l%d" % rng.randrange(nl), "*"]))
-            steps.append("@t%d" % rng.randrange(na) if rng.random() < 0.9 else "@*")
+            steps.append("@" + attr_qname(rng.randrange(na)) if rng.random() < 0.9 else "@*")
             if desc and nsteps == 0:
                 desc = False
         elif r < 0.5:
@@ -301,6 +336,8 @@ def gen_record_tree(rng, case, size):
         if case["lnil"][i] and rng.random() < 0.3:
             return ["l", i, {} if plain else gen_attrs(rng, case, 0.3), None]
         der = derived_types(ty)
+        if case.get("_xsipool"):
+            der = [x for x in der if x in case["_xsipool"]]
         if plain and der and rng.random() < case.get("_xsitype", 0.0):
             ov = rng.choice(der)                      # xsi:type: a type derived from the declared one
             return ["l", i, {}, pick_value(rng, ov), ov]
@@ -330,31 +367,35 @@ SELECTORS = ["c1", "c1", "c1", "c2", "*", "c2/c1", "c1/c1", "*/c1", "c1|c2", "c2
              ".//c1/c1/c1", ".//c2/c1", ".//*", "c1/l0", "c1/l1", ".//l0", ".//c1/l2", "c1|c2/c1", ".//c1|c2", "*/*", ".//c1/*/c1"]
 
 
-def gen_fields(rng, nf, leafsel):
+def gen_fields(rng, nf, leafsel, na=3):
     """nf pairwise different field xpaths"""
     for _ in range(50):
-        out = gen_fields1(rng, nf, leafsel)
+        out = gen_fields1(rng, nf, leafsel, na)
         if len(set(out)) == len(out):
             return out
     return ["@t0", "@t1", "@t2"][:nf]
 
 
-def gen_fields1(rng, nf, leafsel):
+def gen_fields1(rng, nf, leafsel, na=3):
+    def at():
+        # namespace-qualified attributes are preferred when the case has them
+        i = rng.randrange(3, na) if (na > 3 and rng.random() < 0.6) else rng.randrange(3)
+        return "@" + attr_qname(i)
     out = []
     for _ in range(nf):
         r = rng.random()
         if leafsel:
-            out.append("." if r < 0.5 else "@t%d" % rng.randrange(3))
+            out.append("." if r < 0.5 else at())
         elif r < 0.45:
-            out.append("@t%d" % rng.randrange(3))
+            out.append(at())
         elif r < 0.8:
             out.append("l%d" % rng.randrange(3))
         elif r < 0.86:
-            out.append("l%d/@t%d" % (rng.randrange(3), rng.randrange(3)))
+            out.append("l%d/%s" % (rng.randrange(3), at()))
         elif r < 0.9:
             out.append(".//l%d" % rng.randrange(3))
         elif r < 0.93:
-            out.append("@t%d|@t%d" % (rng.randrange(3), rng.randrange(3)))
+            out.append("%s|%s" % (at(), at()))
         elif r < 0.96:
             out.append("l%d|l%d" % (rng.randrange(3), rng.randrange(3)))
         elif r < 0.98:
@@ -381,6 +422,16 @@ def gen_case2(rng, size=14, allow_desc=True):
         case["_xsitype"] = rng.choice([0.0, 0.2, 0.4])
         if case["_xsitype"]:
             case["lplain"] = [rng.random() < 0.7 for _ in range(nl)]
+    if rng.random() < 0.15:    # declared anySimpleType / base types, the instances say xsi:type (actual type decides)
+        case["ltypes"] = [rng.choice("yyd") for _ in range(nl)]
+        case["ltypes"][rng.randrange(nl)] = rng.choice("yisD")
+        case["lplain"] = [True] * nl
+        case["_xsitype"] = rng.choice([0.6, 0.9])
+        case["_xsipool"] = rng.choice(["isD", "id", "ilh", "sti", "iD"])
+    if rng.random() < 0.5:     # three more attributes: global declarations of another namespace, used through ref=
+        fam2 = [rng.choice(case["atypes"]), rng.choice(case["atypes"]), rng.choice(case["ltypes"])]
+        case["atypes"] = case["atypes"] + [x if x in TYPE_NAME and x != "y" else "s" for x in fam2]
+    na = len(case["atypes"])
     sels = [s for s in SELECTORS if allow_desc or ".//" not in s]
     nid = 0
     for _ in range(rng.choice([1, 1, 2, 2, 3])):
@@ -389,7 +440,7 @@ def gen_case2(rng, size=14, allow_desc=True):
         nf = rng.choice([1, 1, 1, 2, 2, 3])
         sel = rng.choice(sels)
         leafsel = sel.split("|")[0].split("/")[-1].startswith("l")
-        key = {"elem": elem, "kind": kind, "id": nid, "refer": None, "sel": sel, "fields": gen_fields(rng, nf, leafsel)}
+        key = {"elem": elem, "kind": kind, "id": nid, "refer": None, "sel": sel, "fields": gen_fields(rng, nf, leafsel, na)}
         case["ics"].append(key)
         nid += 1
         if rng.random() < 0.6:
@@ -397,7 +448,7 @@ def gen_case2(rng, size=14, allow_desc=True):
             rsel = rng.choice(sels)
             rleaf = rsel.split("|")[0].split("/")[-1].startswith("l")
             # reference fields of the same types where possible: reuse the key's fields half of the time
-            rf = list(key["fields"]) if (rng.random() < 0.5 and rleaf == leafsel) else gen_fields(rng, nf, rleaf)
+            rf = list(key["fields"]) if (rng.random() < 0.5 and rleaf == leafsel) else gen_fields(rng, nf, rleaf, na)
             ref = {"elem": relem, "kind": "r", "id": nid, "refer": key["id"], "sel": rsel, "fields": rf}
             if rng.random() < 0.5:
                 case["ics"].append(ref)
@@ -408,6 +459,7 @@ def gen_case2(rng, size=14, allow_desc=True):
     case["tree"] = gen_record_tree(rng, case, size)
     del case["_nest"]
     case.pop("_xsitype", None)
+    case.pop("_xsipool", None)
     return case
 
 
